@@ -546,20 +546,29 @@ func r045(c *Ctx, r *R) {
 		return
 	}
 	a := callArgs(lp[0].Common())
-	src, idx := originCall(a[1])
-	if src == nil || idx != 0 || !nameMatches(callName(src.Common()), ModPath+".Cluster).PinGet") || paramIndex(f, callArgs(src.Common())[1]) != 2 {
+	// the logged pin: PinGet(from)'s result, directly or handed back by a
+	// helper that fetched (and vetted) it
+	okSrc, nSrc := true, 0
+	for _, lf := range valueLeavesDeep(a[1], lp[0].Block()) {
+		if isNilConst(lf.Val) {
+			continue
+		}
+		nSrc++
+		src, idx := originCall(lf.Val)
+		if src == nil || idx != 0 || !nameMatches(callName(src.Common()), ModPath+".Cluster).PinGet") || paramIndex(f, callArgs(src.Common())[1]) != 2 {
+			okSrc = false
+		}
+	}
+	if !okSrc || nSrc == 0 {
 		r.Bad("PinUpdate:source", lp[0].Pos(), "the pin logged by PinUpdate is not the stored pin of `from` (allocations and options would not be copied)")
 		return
 	}
 	r.OK("PinUpdate:source", lp[0].Pos(), "the logged pin is the stored source pin")
 	r.Check(guardedBy(lp[0].Block(), func(g Guard) bool { return gCallErrNil(g, ModPath+".Cluster).PinGet") }), "PinUpdate:source-exists", lp[0].Pos(), "update of a CID that is not pinned is refused", "PinUpdate logs a pin although the source was not found")
-	// fields overwritten on that object
-	base := ssa.Value(src)
-	if ex, ok := strip(a[1]).(*ssa.Extract); ok {
-		base = ex
-	}
+	// fields overwritten on that object, here or in a helper it is handed to
+	base := strip(a[1])
 	var written []string
-	instrs(f, func(i ssa.Instruction) {
+	instrsDeep(f, func(i ssa.Instruction) {
 		st, ok := i.(*ssa.Store)
 		if !ok {
 			return
@@ -576,7 +585,7 @@ func r045(c *Ctx, r *R) {
 			}
 			break
 		}
-		if root == base {
+		if strip(root) == base {
 			written = append(written, fieldOfAddr(fa).Name())
 		}
 	})
